@@ -33,6 +33,8 @@ claimed = {
          "TLC state graph of the response recorder replayed over fault-injecting underlying writers", "5"),
  "C15": (MC, "TLC enumerates panic class x response progress and prescribes re-panic, client response and logging (spec/FoxRecovery.tla), and decides redaction for every capitalisation of the sensitive header names through the canonicalisation operator; each case is replayed with real panic values (http.ErrAbortHandler, wrapped, net.OpError/EPIPE/ECONNRESET, errors, strings, nil, custom) raised in route handlers, inner middleware and the special handlers; the captured diagnostic record, the response, the escaped panic and the usability of the router afterwards are compared. Panics inside managed transactions are the FnPanic edges of C04.",
          "TLC-enumerated panic cases replayed on the real Recovery middleware with a capturing log handler", "5"),
+ "C16": ("exploration", "The specification cannot express heap allocation; it supplies the scenarios: MC_Match enumerates tables and requests (deep backtracking, infix catch-alls, hostnames with ports, many parameters) and prescribes which requests are served by a route, directly or through an ignored trailing slash. For each such request the allocations of ServeHTTP are measured with testing.AllocsPerRun after warm-up, with an allocation-free handler and writer and the GC paused; any non-zero count is a violation. The number is measured by the Go runtime, not decided by the model, hence exploration.",
+         "TLC-generated serving scenarios measured with testing.AllocsPerRun", "5, 11"),
  "C17": (MC, "TLC checks idempotence, canonicity, fixed point and the trailing-slash rule of the reference Clean on every string over {/ . a % rune} up to a bounded length and emits (input, canonical form) pairs compared with fox.CleanPath; long random inputs crossing the 128-byte buffer are recorded from the real code and validated by TLC (Obs_Clean).",
          "TLC-enumerated CleanPath vectors replayed; recorded outputs validated by TLC", "5"),
  "C18": (MC, "TLC enumerates every abstract header (lines x entries over the classes public, private-net, loopback, custom-range, junk, unspecified, empty), prescribes the designated entry for every strategy and parameter (spec/FoxClientIP.tla) and checks the prefix-independence theorem for every attacker prefix; each header is concretised from a rendering table (ports, brackets, zones, quotes, Forwarded parameters, whitespace) labelled with the address it denotes, and resolved through a real Context for X-Forwarded-For and Forwarded. The built-in range tables are read through a verif accessor and every range validated by TLC against the non-global blocks (Obs_Ranges).",
@@ -49,6 +51,9 @@ checks = []
 for i in ids:
     if i in claimed:
         lvl, text, tech, ref = claimed[i]
+        note = "The TLA+ model is checked exhaustively for small constants; the code is tested against it (every emitted vector/edge). Trusted: TLC, the Go toolchain, net/url for Location resolution, the harness projection functions."
+        if lvl == "exploration":
+            note = "Scenario enumeration comes from the TLA+ matcher model; the allocation count is an observation of the Go runtime. Trusted: testing.AllocsPerRun, TLC, the Go toolchain."
         checks.append({
           "property_id": i,
           "quick_cmd": f"bin/check {i} --tier quick",
@@ -57,7 +62,7 @@ for i in ids:
           "replay_cmd_template": f"bin/check {i} --replay {{path}}",
           "engine": "tlc+go-replay",
           "level_claimed": {"category": lvl, "text": text, "design_ref": "DESIGN.md section " + ref},
-          "level_note": "The TLA+ model is checked exhaustively for small constants; the code is tested against it (every emitted vector/edge). Trusted: TLC, the Go toolchain, net/url for Location resolution, the harness projection functions.",
+          "level_note": note,
           "technique": tech,
         })
 hooks = subprocess.run(["git","-C","/repo","log","--format=%h","--grep=^verif:"],capture_output=True,text=True).stdout.split()
